@@ -26,6 +26,9 @@ type c11Ref struct {
 	With2    string `json:"with2,omitempty"`   // a second pair (wv2)
 	WithSv   string `json:"with_sv,omitempty"` // a pair named like the includer's own private variable sv
 	Only     bool   `json:"only,omitempty"`
+	// WithNil: the pair is written wv=nl - its value is nil. The pair still counts: the included
+	// template sees an empty wv, not the includer's
+	WithNil bool `json:"with_nil_value,omitempty"`
 	Dead     bool   `json:"never_executed,omitempty"` // lazy include under a false condition
 	// Var / GlobalName (lazy includes of the top-level file only): the name is the value of the
 	// context variable Var; the set's Globals bind the same variable to GlobalName, another
@@ -415,6 +418,10 @@ func c11Finish(tp *Tapes, sp *c11Spec) {
 					ref.With = fmt.Sprintf("W%d_%d", i, r)
 					ref.Only = true
 				}
+				if ref.With == "" && g.Draw(4) == 0 {
+					ref.WithNil = true
+					ref.Only = g.Draw(3) == 0
+				}
 				if ref.With != "" && g.Draw(2) == 1 {
 					ref.With2 = fmt.Sprintf("V%d_%d", i, r)
 				}
@@ -464,6 +471,12 @@ func c11RefText(ref c11Ref, k int) string {
 	tail := ""
 	if ref.IfExists {
 		tail += " if_exists"
+	}
+	if ref.WithNil && ref.With == "" {
+		tail += " with wv=nl"
+		if ref.Only {
+			tail += " only"
+		}
 	}
 	if ref.With != "" {
 		tail += fmt.Sprintf(` with wv="%s"`, ref.With)
@@ -713,6 +726,8 @@ func (r *c11Ref2) execRefs(n *c11Node, f c11File, execName string, env c11Env, b
 		}
 		if ref.With != "" {
 			sub.wv = ref.With
+		} else if ref.WithNil {
+			sub.wv = ""
 		}
 		if ref.With2 != "" {
 			sub.wv2 = ref.With2
